@@ -96,6 +96,7 @@ func (a *probeCounts) add(b *probeCounts) {
 	a.ParseFail += b.ParseFail
 	a.Panics += b.Panics
 	a.MutatingOnObj += b.MutatingOnObj
+	a.PoolOutstanding += b.PoolOutstanding
 }
 
 type cell struct {
@@ -835,6 +836,7 @@ func runPlan(p *Plan, trace bool, collectCover bool) *runResult {
 	races0 := rt.RaceErrors()
 	sim.Run()
 	page.unprotect()
+	res.Probes.PoolOutstanding += int64(rt.PoolOutstanding())
 
 	// ---- post-run oracles (main goroutine; every task has finished)
 	res.Hash = sim.Hash()
